@@ -9,6 +9,7 @@ import formulas
 from formulas.tokens.operand import XlError
 
 P, Q, R = "'[b]S'!", "'[b]T'!", "'[c.xlsx]U'!"
+S2 = "'[c.xlsx]S'!"
 NAME = "'[b]'!NM"
 ERR = formulas.functions.Error.errors if hasattr(formulas, 'functions') else None
 
@@ -39,7 +40,12 @@ def template(t, a1=5, a2=3):
     d = _template(t, a1, a2)
     # a genuinely two-dimensional block, read as a whole and cell by cell
     d.update({P + 'H1': 1.5, P + 'I1': 2, P + 'H2': 30, P + 'I2': 'w',
-              P + 'J1': '=SUM(%sH1:I2)' % P, P + 'J2': '=%sI1*10+%sH2' % (P, P), P + 'J3': '=%sI2&"!"' % P})
+              P + 'J1': '=SUM(%sH1:I2)' % P, P + 'J2': '=%sI1*10+%sH2' % (P, P), P + 'J3': '=%sI2&"!"' % P,
+              # one range used alone and inside a multi-area reference of the same formula
+              P + 'K1': '=SUM(%sH1:I1)/SUM((%sH1:I1,%sH2:H2))' % (P, P, P),
+              # a second workbook with a sheet of the SAME name, read through ranges
+              S2 + 'H1': 100, S2 + 'I1': 200, S2 + 'H2': 300,
+              P + 'K2': '=SUM(%sH1:I1)-SUM(%sH1:I1)' % (S2, P), P + 'K3': '=IF(%sH1>=3,"big",)' % P})
     return d
 
 
